@@ -559,9 +559,10 @@ impl LazySeq {
                     }
                 }
 
-                // Mutably borrow the object again so we can update the inner state.
-                let mut state = mutex.borrow_mut();
+                // `to_seq` may call back into Python (and from there into this LazySeq
+                // again), so the state is only borrowed mutably once its result is known.
                 let result = to_seq(py, wrapped.bind(py))?.unbind();
+                let mut state = mutex.borrow_mut();
                 *state = LazySeqState::Realized(result.clone_ref(py));
                 Ok(result.clone_ref(py))
             }
